@@ -516,3 +516,65 @@ def derivation_cases(rng, n_random=0):
         f = derived(B, "d", deps, dk, width=width, table=[t1, t2])
         mk("rnd-%d" % j, f, [rng.choice([1, 2])], ["derivation", "random"])
     return out
+
+
+# ---------------------------------------------------------------------------------------------
+# C22 / C19: designs with continuous factors
+
+def continuous_cases(rng, n):
+    out = []
+    for j in range(n):
+        F = [basic("a", 2), basic("b", rng.choice([2, 3]))]
+        X = [1] if rng.random() < 0.5 else [1, 2]
+        T = 2 if X == [1] else 2 * len(F[1]["levels"])
+        cons = []
+        if rng.random() < 0.4:
+            T = rng.randrange(T, 7)
+            cons.append(K("MinimumTrials", k=T))
+        cont = []
+        names = []
+        custom = rng.random() < 0.8
+        nf = rng.choice([1, 2, 3])
+        for ci in range(nf):
+            name = "x%d" % (ci + 1)
+            if not custom:
+                cont.append({"name": name, "dist": rng.choice(["uniform", "gaussian", "exponential"]),
+                             "args": {"uniform": [0, 10], "gaussian": [5, 2], "exponential": [1]}[cont[-1]["dist"] if False else "uniform"],
+                             "deps": []})
+                cont[-1]["args"] = {"uniform": [0, 10], "gaussian": [5, 2], "exponential": [1]}[cont[-1]["dist"]]
+                names.append(name)
+                continue
+            deps = []
+            choices = ["none", "d", "d"] + (["c", "w", "w"] if names else [])
+            kind = rng.choice(choices)
+            if kind == "d":
+                deps.append({"k": "d", "f": rng.choice([1, 2])})
+            elif kind == "c":
+                deps.append({"k": "c", "name": rng.choice(names)})
+                if rng.random() < 0.5:
+                    deps.append({"k": "d", "f": rng.choice([1, 2])})
+            elif kind == "w":
+                width = rng.choice([1, 2, 3])
+                start = rng.choice([None, None, 0, width - 1, width])
+                wn = [rng.choice(names)] if len(names) < 2 or rng.random() < 0.6 else list(names[:2])
+                deps.append({"k": "w", "names": wn, "width": width, "stride": rng.choice([1, 1, 2]), "start": start})
+            cont.append({"name": name, "dist": "custom", "deps": deps, "cumulative": rng.random() < 0.25,
+                         "stream": [rng.randrange(0, 6) for _ in range(37)]})
+            names.append(name)
+        blk = cross([1, 2], X, cons)
+        blk["cont"] = list(names)
+        ncon = rng.choice([0, 1, 1, 2])
+        for _ in range(ncon):
+            if custom:
+                if len(names) >= 2 and rng.random() < 0.4:
+                    a, b = rng.sample(names, 2)
+                    blk["cons"].append({"c": "Continuous", "names": [a, b], "pred": {"op": rng.choice(["lt2", "sumle"]), "k": rng.randrange(6, 30)}})
+                else:
+                    blk["cons"].append({"c": "Continuous", "names": [rng.choice(names)],
+                                        "pred": {"op": rng.choice(["lt", "ne"]), "k": rng.choice([3, 4, 5, 20, 40])}})
+            else:
+                blk["cons"].append({"c": "Continuous", "names": [rng.choice(names)], "pred": {"op": "lt", "k": rng.choice([6, 8, 9])}})
+        cs = case(F, blk, "A", ["continuous"] + (["custom"] if custom else ["builtin"]), "cont-%d" % j)
+        cs["continuous"] = cont
+        out.append(cs)
+    return out
